@@ -27,6 +27,10 @@ Section Par.
   Definition stop_test (i e : nat) : bool := ncmp worker_stop_test i e.          (* index > earliest *)
   Definition keep_test (i f : nat) : bool := ncmp rollback_past_test i f.        (* index <= final: stop undoing *)
 
+  (* how a failing patch index is published; the operation is read from the source: fetch_min *)
+  Definition publish (e i : nat) : nat :=
+    match earliest_update with UpdMin => Nat.min e i | UpdOther => if Nat.eqb e n then i else e end.
+
   Inductive pc := PRead | PRun | PStop.
 
   Record worker := { w_state : St; w_done : list T (* newest first *); w_todo : list T; w_pc : pc }.
@@ -44,7 +48,7 @@ Section Par.
     | PRun, [] => (e, w)       (* unreachable *)
     | PRun, t :: r =>
         let '(s', failed) := run (w_state w) t in
-        (if failed then Nat.min e (idx t) else e,
+        (if failed then publish e (idx t) else e,
          {| w_state := s'; w_done := t :: w_done w; w_todo := r; w_pc := PRead |})
     end.
 
@@ -129,8 +133,12 @@ Section Par.
   Lemma sorted_app_tail a c : sorted (a ++ c) -> sorted c.
   Proof. induction a as [|t r IH]; cbn [app sorted]; [auto|]. intros [_ H]. auto. Qed.
 
+  Hypothesis update_is_min : earliest_update = UpdMin.
   Hypothesis stop_is_gt : worker_stop_test = OpGt.
   Hypothesis keep_is_le : rollback_past_test = OpLe.
+
+  Lemma publish_min e i : publish e i = Nat.min e i.
+  Proof. unfold publish. rewrite update_is_min. reflexivity. Qed.
 
   Lemma stop_test_spec i e : stop_test i e = true <-> e < i.
   Proof. unfold stop_test. rewrite stop_is_gt. cbn. apply Nat.ltb_lt. Qed.
@@ -187,7 +195,7 @@ Section Par.
         destruct Hu as [<-|Hu]; [lia|]. destruct Hs as [Hs _]. specialize (Hs u Hu). lia.
     - (* PRun *)
       destruct (w_todo w) as [|t r] eqn:Et; [exfalso; apply (Hrun eq_refl); reflexivity|].
-      destruct (run (w_state w) t) as [s' failed] eqn:Er. intros [= <- <-].
+      destruct (run (w_state w) t) as [s' failed] eqn:Er. intros [= <- <-]. rewrite ?publish_min.
       assert (Hnew : first_fail (w_state w) (t :: r) = if failed then Nat.min n (idx t) else first_fail s' r).
       { cbn [first_fail]. rewrite Er. reflexivity. }
       assert (Hidx : failed = true -> F <= idx t).
